@@ -582,6 +582,10 @@ func (s *SendC[T]) dequeue(e *Exec) {
 
 func (s *SendC[T]) collect(e *Exec) { e.takeOver(s.w.peer) }
 
+// SelectInterrupted is the panic value of a blocking select that was reached
+// while its (aborted) thread unwinds; nothing can be communicated any more.
+func SelectInterrupted() string { return "vrt: select reached while the thread unwinds" }
+
 // Select performs a select statement over cases and returns the index of the
 // clause that fired, or -1 for the default clause.
 func Select(site string, hasDefault bool, cases ...SelCase) int {
